@@ -47,14 +47,15 @@ type h2Msg struct {
 }
 
 type h2Endpoint struct {
-	InitWin    int64   `json:"init_win"`    // SETTINGS_INITIAL_WINDOW_SIZE announced at start (-1: not sent)
-	MaxFrame   int64   `json:"max_frame"`   // SETTINGS_MAX_FRAME_SIZE announced at start (-1: not sent)
-	TableSize  int64   `json:"table_size"`  // SETTINGS_HEADER_TABLE_SIZE (-1: not sent)
-	Auto       bool    `json:"auto"`        // return credit for every DATA frame at once
-	GrantStep  int     `json:"grant_step"`  // lazy receivers: size of each WINDOW_UPDATE granted by a scheduler event
-	WinChanges []int64 `json:"win_changes"` // later SETTINGS_INITIAL_WINDOW_SIZE values (scheduler events)
-	EarlyGrant int64   `json:"early_grant"` // extra stream + connection credit granted right after this endpoint's first HEADERS on a stream, before any DATA has come back
-	FrameSeq   []int   `json:"frame_seq"`   // SETTINGS_MAX_FRAME_SIZE values announced one after the other before any stream starts
+	InitWin    int64   `json:"init_win"`           // SETTINGS_INITIAL_WINDOW_SIZE announced at start (-1: not sent)
+	MaxFrame   int64   `json:"max_frame"`          // SETTINGS_MAX_FRAME_SIZE announced at start (-1: not sent)
+	TableSize  int64   `json:"table_size"`         // SETTINGS_HEADER_TABLE_SIZE (-1: not sent)
+	Auto       bool    `json:"auto"`               // return credit for every DATA frame at once
+	GrantStep  int     `json:"grant_step"`         // lazy receivers: size of each WINDOW_UPDATE granted by a scheduler event
+	WinChanges []int64 `json:"win_changes"`        // later SETTINGS_INITIAL_WINDOW_SIZE values (scheduler events)
+	NoGrant    bool    `json:"no_grant,omitempty"` // returns no credit at all until the windows are opened wide at the end
+	EarlyGrant int64   `json:"early_grant"`        // extra stream + connection credit granted right after this endpoint's first HEADERS on a stream, before any DATA has come back
+	FrameSeq   []int   `json:"frame_seq"`          // SETTINGS_MAX_FRAME_SIZE values announced one after the other before any stream starts
 	Pings      int     `json:"pings"`
 	Priorities int     `json:"priorities"`
 	Streams    []h2Msg `json:"streams"` // client: requests; server: responses (by stream index)
@@ -189,6 +190,42 @@ func genH2(t *tape.Tape, tier, mode string) any {
 	n := 1 + t.Pick(4, 3, 2, 1)
 	c.Client = genH2Endpoint(t, mode, true, n)
 	c.Server = genH2Endpoint(t, mode, false, n)
+	if t.Chance(1, 12) {
+		// the uploads add up to exactly the connection window the server starts with, and the server returns nothing:
+		// the last frame brings the relay's view of that window to exactly zero
+		c.Server.InitWin, c.Server.Auto, c.Server.NoGrant, c.Server.WinChanges, c.Server.EarlyGrant = 1<<20, false, true, nil, 0
+		left := 65535
+		for i := range c.Client.Streams {
+			m := &c.Client.Streams[i]
+			m.Data, m.Pad = nil, nil
+			k := 1 + t.Intn(3)
+			if i == len(c.Client.Streams)-1 {
+				k = 4
+			}
+			for j := 0; j < k && left > 0; j++ {
+				sz := 1 + t.Intn(16384)
+				if sz > left || (i == len(c.Client.Streams)-1 && j == k-1) {
+					sz = left
+					if sz > 16384 {
+						sz = 16384
+					}
+				}
+				m.Data, m.Pad = append(m.Data, sz), append(m.Pad, 0)
+				left -= sz
+			}
+		}
+		if left > 0 { // (top up on the last stream)
+			m := &c.Client.Streams[len(c.Client.Streams)-1]
+			for left > 0 {
+				sz := left
+				if sz > 16384 {
+					sz = 16384
+				}
+				m.Data, m.Pad = append(m.Data, sz), append(m.Pad, 0)
+				left -= sz
+			}
+		}
+	}
 	c.GoAway = t.Chance(1, 6)
 	c.GoAwayEarly = c.GoAway && t.Chance(1, 2)
 	c.Cap = []int{0, 1024, 4096, 32768}[t.Pick(5, 2, 2, 1)]
@@ -1070,7 +1107,7 @@ func runH2(env *core.Env, ci any) {
 			if p == nil {
 				continue
 			}
-			if !p.cfg.Auto {
+			if !p.cfg.Auto && !p.cfg.NoGrant {
 				addGrant(p)
 			}
 			p := p
